@@ -286,6 +286,29 @@ def check_case(case):
             bad("vcf:records", f"unexpected record {recs_out[gi][:8]}")
     if not segarr.data.equals(before):
         bad("input-modified", "export changed its input array")
+    # ---- command-line tier (a quarter of the cases): `cnvkit.py export bed` / `export vcf` on the written segments = the
+    # library calls on the same file, the sample sex given on the command line
+    from vk import gen
+
+    if gen.pick(case, "cli", 4) == 0 and not out:
+        import shutil
+        import tempfile
+
+        from vk import cli
+
+        d = tempfile.mkdtemp(prefix="vk20.")
+        try:
+            mode = {"sample": "sample", "genes": "genes", "custom": "my label"}[case["label"]]
+            for show in ("all", "ploidy", "variant"):
+                diff = cli.export_bed_diff(segarr, d, case["ploidy"], case["male_ref"], case["female"], case["par"], mode, show, tag="e" + show)
+                if diff:
+                    bad("cli:export-bed", diff)
+                    break
+            diff = cli.export_vcf_diff(segarr, d, case["ploidy"], case["male_ref"], case["female"], case["par"])
+            if diff:
+                bad("cli:export-vcf", diff)
+        finally:
+            shutil.rmtree(d, ignore_errors=True)
     return out
 
 
@@ -356,6 +379,13 @@ def _check_multi(case):
                tbl[["ID", "chrom", "loc.start", "loc.end", "num.mark", "seg.mean"]].itertuples(index=False)]
         if got != exp:
             bad("seg", f"export seg rows {got[:6]}, expected {exp[:6]}")
+        # command-line tier (a quarter of the cases): `cnvkit.py export seg` on the same files
+        if gen.pick(case, "cli", 4) == 0 and not out:
+            from vk import cli
+
+            diff = cli.export_seg_diff([f + ".cns" for f in fnames], tmp, case["enumerate"])
+            if diff:
+                bad("cli:export-seg", diff)
         # ---- merged bin tables
         faulty = case["fault"] != "none"
         try:
